@@ -23,8 +23,13 @@ func VerifBuildJPEGICC(n int, sofPos int, withCOM bool, seq, tot []byte) (in []b
 		if withCOM {
 			// an interleaved segment of any other kind: COM, any APPn (an APP2 that is not
 			// an ICC chunk included), DQT, DHT, DRI - the marker byte is symbolic
-			m := verifU8()
-			verifAssume(verifOr(verifAnd(m >= 0xe0, m <= 0xef), verifOr(verifOr(m == 0xfe, m == 0xdb), verifOr(m == 0xc4, m == 0xdd))))
+			// (with four chunks - thorough tier - the marker is COM: a symbolic marker there
+			// multiplies the paths beyond the budget)
+			m := byte(0xfe)
+			if n <= 3 {
+				m = verifU8()
+				verifAssume(verifOr(verifAnd(m >= 0xe0, m <= 0xef), verifOr(verifOr(m == 0xfe, m == 0xdb), verifOr(m == 0xc4, m == 0xdd))))
+			}
 			in = append(in, 0xff, m, 0, 4)
 			in = append(in, verifBytes(2)...)
 		}
